@@ -32,6 +32,7 @@ func c02(env *core.Env, large bool) {
 		Weights:         reg.DefaultWeights(),
 		BadPush:         true,
 		MalformedDigest: true,
+		Recommit:        true,
 		ContentFault:    true,
 		EmptyBlobMT:     true,
 		Motifs:          true,
